@@ -246,21 +246,25 @@ Qed.
 (* ------------------------------------------------------------------------------------ *)
 (* 5. the initial state                                                                  *)
 
-Theorem C15_init : forall nl nc orc, 0 < nl -> 0 < nc -> r_fault (m_root (m_init nl nc orc)) = false ->
-  FInvM (m_init nl nc orc).
+Theorem C15_init_f : forall fuel nl nc orc, 0 < nl -> 0 < nc -> r_fault (m_root (m_init_f fuel nl nc orc)) = false ->
+  FInvM (m_init_f fuel nl nc orc).
 Proof.
-  intros nl nc orc Hl Hc Hf. destruct (init_inv nl nc orc Hl Hc Hf) as [SI _].
+  intros fuel nl nc orc Hl Hc Hf. destruct (init_inv_f fuel nl nc orc Hl Hc Hf) as [SI _].
   pose proof (state_of_screen _ _ _ SI) as Hok.
-  unfold FInvM, m_init in *. cbn [m_root m_term] in *.
-  assert (Htree : r_tree (win_expose (root_new nl nc) 0 None) = r_tree (root_new nl nc))
+  unfold FInvM, m_init_f in *. cbn [m_root m_term] in *.
+  assert (Htree : r_tree (win_expose (root_new_f fuel nl nc) 0 None) = r_tree (root_new_f fuel nl nc))
     by apply win_expose_tree.
   constructor; [|exact Hok|].
-  - rewrite Htree. cbn [root_new r_tree].
+  - rewrite Htree. cbn [root_new_f r_tree].
     constructor; try reflexivity.
     + unfold ids_unique. cbn. constructor; [intros []|constructor].
     + constructor; [intros k Hk; cbn in Hk; discriminate|constructor].
   - left. rewrite Htree. reflexivity.
 Qed.
+
+Theorem C15_init : forall nl nc orc, 0 < nl -> 0 < nc -> r_fault (m_root (m_init nl nc orc)) = false ->
+  FInvM (m_init nl nc orc).
+Proof. exact (C15_init_f rsfuel). Qed.
 
 (* ------------------------------------------------------------------------------------ *)
 (* non-vacuity: a concrete history inside the alphabet; the theorem applies and the cursor *)
